@@ -8,7 +8,8 @@ Gate 3 (property oracle, Python big integers): exact (tensor) phase of operands 
         result must equal the product of the operand phases (operands masked to their effective
         precision) times 2^cnv_offset on the torus, within an explicit worst-case bound
         (normalisation ulps + the convolution limbs dropped by normalize_input_limb_bound + key noise).
-Gate 4: dirty-scratch metamorphic run (relinearisation with dsize >= 3 reads stale res_dft limbs).
+Gate 4: dirty-scratch metamorphic run + exactly representable stale content in the res_dft slot of
+        relinearisation with dsize >= 3 (regression of the defect repaired by poulpy d3c2e96).
 """
 import math
 
@@ -325,7 +326,6 @@ def run_batch(ctx, binp, cases, dirty=0):
     return [out[k].split(" ", 1)[1] if k < len(out) and " " in out[k] else "missing" for k in range(len(cases))]
 
 
-STALE_KEY = "operations/glwe.rs:glwe_tensor_relinearize:res_dft-not-zeroed:dsize>=3"
 GAP_KEY = "vec_znx_big_normalize:gap-region(C08):cnv_offset<base2k:result-bits<base2k"
 ZERO_KEY = "fft64:cnv_apply_dft:zero-limb-result-panics:cnv_offset>=full-product"
 RADIX_KEY = "operations/glwe.rs:glwe_tensor_relinearize:adds-unconverted-tensor:a_base2k!=key_base2k==res_base2k"
@@ -393,16 +393,6 @@ def run(ctx):
             hi_ = 0 if c["off"] < c["b"] else c["off"] // c["b"] - 1
             sb_eff = sa if c["op"] == "square" else (c.get("clen", 1) if c["op"].startswith("const") else sb)
             zero_dft = c["op"] in ("tensor", "tensor_add", "square", "plain", "plain_assign", "const") and sa + sb_eff - hi_ == 0
-            # relinearise, dsize >= 3, tensor radix != key radix: res_dft is carved out of the region the radix
-            # conversion buffer a_conv just used, so its never-written limbs hold a_conv's digits reinterpreted as
-            # transform data even on a clean arena -- not representable in the exact model (same root cause as STALE_KEY)
-            garbage = c["op"] == "relin" and c.get("dsize", 1) >= 3 and c["b"] != c["bk"]
-            if garbage:
-                hist["relin_garbage_res_dft(b!=bk,dsize>=3)"] = hist.get("relin_garbage_res_dft(b!=bk,dsize>=3)", 0) + 1
-                if any(outs[i] != model[(k, BIG128[i])] for i in range(4)) or len(set(outs)) > 1:
-                    known.setdefault(STALE_KEY, {"request": req_line(c), "note": "back ends / model disagree on a clean arena: res_dft overlaps a_conv",
-                                                 "outputs": {BE_NAMES[i]: outs[i][:120] for i in range(4)}, "model": model[(k, 1)][:120]})
-                continue
             for i in range(4):
                 if BIG128[i] == 0 and not fft_ok:
                     continue
@@ -432,14 +422,13 @@ def run(ctx):
                     okc, det = oracle_case(c, a, outs[i])
                     n_oracle += 1
                     n_loose += 1 if det.get("loose") else 0
-                    max_ratio = max(max_ratio, det.get("ratio", 0.0))
+                    if okc:
+                        max_ratio = max(max_ratio, det.get("ratio", 0.0))
                     if not okc:
                         kf = None
                         gap = c["op"] != "relin" and c["off"] < c["b"] and len(parse_vec(outs[i], c["n"])[0]) * (c["bo"] if not c["op"].endswith("_assign") else c["b"]) < c["b"]
                         if gap:
                             kf = GAP_KEY
-                        elif c["op"] == "relin" and "stale" in c:
-                            kf = STALE_KEY
                         elif c["op"] == "relin" and c["bo"] == c["bk"] and c["b"] != c["bk"]:
                             kf = RADIX_KEY
                         w = {"request": req_line(c), "back_end": BE_NAMES[i], "oracle": det,
@@ -470,11 +459,7 @@ def run(ctx):
             for i in range(4):
                 if p0.get(f"be{i}") != p1.get(f"be{i}"):
                     n_diff += 1
-                    if c["op"] == "relin" and c.get("dsize", 1) >= 3:
-                        known.setdefault(STALE_KEY, {"request": req_line(c), "back_end": BE_NAMES[i], "clean_scratch": p0.get(f"be{i}")[:200],
-                                                     "dirty_scratch": p1.get(f"be{i}")[:200]})
-                    else:
-                        broken.append(f"output depends on scratch content: {req_line(c)}")
+                    broken.append(f"output depends on scratch content: {req_line(c)} ({BE_NAMES[i]})")
                     break
         ctx.cov["dirty_scratch_cases"] = len(sub)
         ctx.cov["dirty_scratch_differences"] = n_diff
